@@ -423,7 +423,7 @@ func (m *VM) step(i int, op *Op) *Rec {
 			break
 		}
 		body = func() {
-			addAuthz(a.Az, op.Az, op.Perm)
+			addAuthz(a.Az, op.Az, op.Perm, op.Has("permute-checks"))
 			a.Content.Facts = append(a.Content.Facts, op.Az.Facts...)
 			a.Content.Rules = append(a.Content.Rules, op.Az.Rules...)
 			a.Content.Checks = append(a.Content.Checks, op.Az.Checks...)
@@ -436,18 +436,22 @@ func (m *VM) step(i int, op *Op) *Rec {
 			break
 		}
 		body = func() {
-			v := &VerifyRec{Tok: a.Tok, Lim: a.Lim}
-			c := a.Content
-			v.Az = &c
+			v := &VerifyRec{Tok: a.Tok, Lim: a.Lim, Via: "reused"}
+			if !a.Unknown {
+				c := a.Content
+				v.Az = &c
+			}
 			v.SimStart = int64(time.Now().UnixNano())
 			err := a.Az.Authorize()
 			v.SimEnd = int64(time.Now().UnixNano())
 			a.Evaluated = true
 			v.Class, v.ErrText, v.Failed = ClassifyAuthz(err), errStr(err), failedChecks(err)
-			for _, q := range op.Qs {
-				v.Queries = append(v.Queries, queryRec(a.Az, q))
+			if !strings.HasPrefix(v.Class, "limit") {
+				for _, q := range op.Qs {
+					v.Queries = append(v.Queries, queryRec(a.Az, q))
+				}
+				v.World = worldFacts(a.Az.PrintWorld())
 			}
-			v.World = worldFacts(a.Az.PrintWorld())
 			rec.V, rec.Class, rec.Err = v, v.Class, v.ErrText
 		}
 	case "azquery":
@@ -464,6 +468,7 @@ func (m *VM) step(i int, op *Op) *Rec {
 				v.Queries = append(v.Queries, queryRec(a.Az, q))
 			}
 			a.Evaluated = true
+			v.Class, rec.Class = "queried", "queried"
 			rec.V = v
 		}
 	case "azreset":
@@ -475,6 +480,7 @@ func (m *VM) step(i int, op *Op) *Rec {
 		body = func() {
 			a.Az.Reset()
 			a.Content = ref.Authz{}
+			a.Unknown = false
 			a.Evaluated = false
 			a.Rounds++
 		}
@@ -491,6 +497,8 @@ func (m *VM) step(i int, op *Op) *Rec {
 			rec.setI("evaluated", b2i(a.Evaluated))
 			if err == nil {
 				m.put(op.Out, &BlobObj{Data: b})
+				c := a.Content
+				m.Ext["snap:"+string(b)] = &c
 			}
 		}
 	case "azload":
@@ -504,6 +512,14 @@ func (m *VM) step(i int, op *Op) *Rec {
 			rec.Err = errStr(err)
 			rec.Class = okClass(err)
 			rec.setI("mutated", b2i(bl.Mutated))
+			if c, ok := m.Ext["snap:"+string(bl.Data)].(*ref.Authz); ok && err == nil {
+				// the bytes are exactly a snapshot taken earlier: the loaded content is known
+				a.Content = *c
+				rec.setI("clean_snapshot", 1)
+			} else {
+				a.Content = ref.Authz{}
+				a.Unknown = true
+			}
 		}
 	case "dwrite":
 		bl := m.Blob(op.A)
@@ -672,11 +688,18 @@ func (m *VM) doVerify(rec *Rec, op *Op, t *TokObj) {
 		rec.Class = "rejected:" + v.AzErr
 		return
 	}
-	addAuthz(a, op.Az, op.Perm)
+	addAuthz(a, op.Az, op.Perm, op.Has("permute-checks"))
 	if op.Has("query-before") {
 		for _, q := range op.Qs {
 			queryRec(a, q)
 		}
+	}
+	if op.Has("noauth") {
+		for _, q := range op.Qs {
+			v.Queries = append(v.Queries, queryRec(a, q))
+		}
+		v.Class, rec.Class = "queried", "queried"
+		return
 	}
 	v.SimStart = time.Now().UnixNano()
 	err = a.Authorize()
